@@ -25,13 +25,13 @@ def gen_cases(tier, seed):
     for a, b in pairs:
         t = rnd.sample(T3, 3)
         cases.append(dict(k='SE3', ta=t[0], ra=a, tb=t[1], rb=b, tc=t[2], rc=rnd.choice(hz), pt=rnd.choice(T3), dt=rnd.choice(T3), dr=rnd.choice(DR3[:8])))
-    for _ in range(1500 if thorough else 220):
+    for _ in range(6000 if thorough else 220):
         ra = rnd.choice(B.QMIXED + hz)
         rb = rnd.choice(B.Q3 + B.Q5A + hz)
         rc = rnd.choice(hz)
         t = [rnd.choice(T3) for _ in range(3)]
         cases.append(dict(k='SE3', ta=t[0], ra=ra, tb=t[1], rb=rb, tc=t[2], rc=rc, pt=rnd.choice(T3), dt=rnd.choice(T3), dr=rnd.choice(DR3[:8])))
-    for _ in range(400 if thorough else 80):
+    for _ in range(1500 if thorough else 80):
         rr = [rnd.choice(hz), rnd.choice(B.QSMALL + B.QNEARPI), rnd.choice(hz)]
         if rnd.random() < 0.5:
             rr[0], rr[1] = rr[1], rr[0]
@@ -48,7 +48,7 @@ def gen_cases(tier, seed):
     for a, b in pairs:
         t = rnd.sample(T2, 3)
         cases.append(dict(k='SE2', ta=t[0], ra=a, tb=t[1], rb=b, tc=t[2], rc=rnd.choice(r2), pt=rnd.choice(T2), dt=rnd.choice(T2), dr=rnd.choice(B.C4 + B.PY5)))
-    for _ in range(400 if thorough else 100):
+    for _ in range(1500 if thorough else 100):
         rr = [rnd.choice(B.PY401), rnd.choice(B.C4 + B.PY5), rnd.choice(B.C4 + B.PY5)]
         rnd.shuffle(rr)
         t = [rnd.choice(T2) for _ in range(3)]
